@@ -155,6 +155,19 @@ class CallGraph:
                 r = self._resolve_chain(func, module, locs, inner_imports, d, n, call)
                 if r:
                     out.append(r)
+        # getattr(x, <names that can be told statically>) is an attribute access like any other
+        for n in ast.walk(func.node):
+            if isinstance(n, ast.Call) and isinstance(n.func, ast.Name) and n.func.id == "getattr" \
+                    and "getattr" not in locs and len(n.args) >= 2:
+                names = getattr_names(self.model, func, n)
+                if names is None:
+                    continue
+                d = dotted(n.args[0])
+                for nm in sorted(names):
+                    r = None
+                    if d is not None:
+                        r = self._resolve_chain(func, module, locs, inner_imports, d + [nm], n, n)
+                    out.append(r if r is not None else Ref("dispatch", nm, n, True, n))
         if self.repr_dispatch:
             # str(x) / repr(x) / format(x) / f"{x}" / "%s" % x run the __repr__ / __str__ of whatever x is
             for n in ast.walk(func.node):
@@ -306,12 +319,59 @@ REFLECTION_ATTRS = {"__dict__", "__class__", "__subclasses__", "__globals__", "_
                     "__getattribute__", "__bases__", "__mro__", "__code__"}
 
 
+def getattr_names(model, func, call):
+    """Attribute names a getattr(x, name) call can ask for, when they can be told statically: a string literal, or
+    a parameter of the enclosing function that every call site in the package fills with a string literal."""
+    e = call.args[1]
+    if isinstance(e, ast.Constant) and isinstance(e.value, str):
+        return {e.value}
+    if not isinstance(e, ast.Name):
+        return None
+    params = [a.arg for a in func.node.args.posonlyargs + func.node.args.args]
+    if e.id not in params:
+        return None
+    for n in ast.walk(func.node):
+        if isinstance(n, ast.Name) and n.id == e.id and isinstance(n.ctx, (ast.Store, ast.Del)):
+            return None
+    idx = params.index(e.id) - (1 if func.cls is not None and params[:1] in (["self"], ["cls"]) else 0)
+    names = set()
+    sites = 0
+    for g in model.all_funcs(True):
+        for n in ast.walk(g.node):
+            if not isinstance(n, ast.Call):
+                continue
+            fn = n.func
+            nm = fn.attr if isinstance(fn, ast.Attribute) else fn.id if isinstance(fn, ast.Name) else None
+            if nm != func.name:
+                continue
+            arg = n.args[idx] if 0 <= idx < len(n.args) else next(
+                (k.value for k in n.keywords if k.arg == e.id), None)
+            if any(isinstance(a, ast.Starred) for a in n.args) or any(k.arg is None for k in n.keywords):
+                return None
+            if not (isinstance(arg, ast.Constant) and isinstance(arg.value, str)):
+                return None
+            names.add(arg.value)
+            sites += 1
+        # a reference to the function that is not a call (alias, callback) hides call sites
+        for n in ast.walk(g.node):
+            if isinstance(n, ast.Attribute) and n.attr == func.name and isinstance(n.ctx, ast.Load):
+                if not any(isinstance(c, ast.Call) and c.func is n for c in ast.walk(g.node)):
+                    return None
+    return names if sites else None
+
+
 def reflection_sites(model):
-    """The 'no reflection' audit that makes the call graph an over-approximation."""
+    """The 'no reflection' audit that makes the call graph an over-approximation.  getattr calls whose attribute
+    names can be told statically are ordinary attribute accesses (the call graph follows them) and are not listed."""
     out = []
     for f in model.all_funcs():
+        resolved = {id(n.func) for n in ast.walk(f.node)
+                    if isinstance(n, ast.Call) and isinstance(n.func, ast.Name) and n.func.id == "getattr"
+                    and len(n.args) >= 2 and getattr_names(model, f, n) is not None}
         for n in ast.walk(f.node):
             if isinstance(n, ast.Name) and n.id in REFLECTION_BUILTINS and isinstance(n.ctx, ast.Load):
+                if id(n) in resolved:
+                    continue
                 if n.id not in local_names(f.node):
                     out.append((f, n, n.id))
             elif isinstance(n, ast.Attribute) and n.attr in REFLECTION_ATTRS:
